@@ -197,14 +197,20 @@ CHECKS = {
         "(AST of every rule source, regenerated each run) against a reviewed baseline. Differential: each rule alone, all, default, default minus each on the document pool.",
    note="Trusted: Lean kernel; rule_fields.py (syntactic abstraction: no setattr/__dict__ tricks), cross-checked by the differential; theorems assume no raising callback."),
  "C13": dict(
-   technique="Lean 4 proof over the engine model + reset table regenerated from source (translator) + state snapshots + pair/triple differential",
+   technique="Lean 4 proof over the engine model + reset tables regenerated from source (translators: rules; parser/shell statics) + state snapshots + pair/triple differential",
    design_ref="DESIGN.md §6 C13",
    text="file_history_independent / run_history_independent / run_prefix_history_independent for rules whose starting_new_file is a total reset; exceptions_pinned, "
         "reset_rhs_const, no_start_no_state by decide over Verif.Gen.RuleFields against the reviewed baseline of 20 written-before-read exceptions; reset_needed_witness. "
         "Dynamic cross-check: vars(rule) after starting_new_file, fresh vs after a document. Differential: ordered pairs and triples of pool documents in one invocation "
-        "vs alone (scan default, scan all rules, fix), and a reused PyMarkdownApi object.",
-   note="Trusted: Lean kernel; rule_fields.py abstraction (cross-checked by snapshots); the baseline exceptions are claimed only on the explored sequences; parser statics "
-        "are covered by the differential only."),
+        "vs alone (scan default, scan all rules, fix; the sequence position is the leading path component), and a reused PyMarkdownApi object. "
+        "Parser and shell: statics_reset / statics_exceptions_pinned / statics_resets_pinned / statics_config_pinned / statics_wellFormed / statics_coverage by decide over "
+        "Verif.Gen.ParserStatics (every class-/module-level mutable or written binding and every instance attribute of the long-lived objects is constant on the "
+        "per-document path, re-bound at the start of every per-document entry function, or one of 6 reviewed exceptions with pinned writer sets); "
+        "parser_state_history_free (any per-document body that leaves constant keys alone and does not read the exception keys is history free). Dynamic cross-check: "
+        "whole-state snapshots in one fresh process right after each per-document initialisation, first document vs after every pool document (scan, fix, API reuse).",
+   note="Trusted: Lean kernel; rule_fields.py and parser_statics.py abstractions (syntactic: name-resolved call graph, parameter-mutation summaries, one-step aliases; "
+        "cross-checked by snapshots every run); the baseline exceptions are claimed only on the explored sequences; state outside the interpreter (logging module "
+        "level, file system) is not in the table."),
  "C14": dict(
    technique="Lean 4 proof over the engine model + life-cycle correspondence through recording probe plug-ins",
    design_ref="DESIGN.md §6 C14",
